@@ -49,6 +49,9 @@ func TestVerifBounded_C11_DoUntilQuorum(t *testing.T) {
 					if !thorough && n == 4 && pi%4 != 0 {
 						continue
 					}
+					if fails > 20 {
+						continue // enough counterexamples: do not spend minutes on time-outs of a broken executor
+					}
 					cases++
 					id := fmt.Sprintf("c11:%s:min=%v:fail=%04b:order=%v", su.name, minimize, oc, perm)
 					var rs ReplicationSet
@@ -72,6 +75,10 @@ func TestVerifBounded_C11_DoUntilQuorum(t *testing.T) {
 						<-release[d.Id] // scripted completion, regardless of cancellation (late results must still be cleaned)
 						idx := int(d.Id[1] - '0')
 						if oc&(1<<idx) != 0 {
+							if idx%2 == 0 {
+								// a failure that merely looks like a cancellation (e.g. an upstream's cancelled call) is still a failure
+								return "", fmt.Errorf("boom-%s: upstream closed: %w", d.Id, context.Canceled)
+							}
 							return "", errors.New("boom-" + d.Id)
 						}
 						return "res-" + d.Id, nil
@@ -257,7 +264,7 @@ func TestVerifBounded_C11_DoUntilQuorum(t *testing.T) {
 			}
 		}
 	}
-	fmt.Printf("BOUNDED-CASES name=C11_DoUntilQuorum n=%d distinct=%d bound=7 replication sets (<=4 instances, <=3 zones, tolerance 0..2) x minimisation on/off x every failure vector x completion orders (all; quick: a quarter for 4 instances); calls complete only when released\n", cases, cases)
+	fmt.Printf("BOUNDED-CASES name=C11_DoUntilQuorum n=%d distinct=%d bound=7 replication sets (<=4 instances, <=3 zones, tolerance 0..2) x minimisation on/off x every failure vector (plain errors and errors wrapping context.Canceled) x completion orders (all; quick: a quarter for 4 instances); calls complete only when released\n", cases, cases)
 	if fails > 0 {
 		t.Fatalf("%d mismatches", fails)
 	}
